@@ -48,6 +48,10 @@ def func1d(name):
         return lambda x: x[::-1]
     if name == 'conv2':
         return lambda x: np.convolve(x, [0.5, 0.5], mode='full')
+    if name == 'smean':      # scalar-returning, as numpy.apply_along_axis
+        return np.mean       # allows: the axis is reduced to length 1
+    if name == 'smax':
+        return np.max
     raise KeyError(name)
 
 
@@ -645,6 +649,14 @@ def draw_slice(draw, info):
 def draw_apply(draw, info):
     pos = [d for d in info.opdims() if info.dims[d][0] >= 1]
     allpos = all(l >= 1 for l, _ in info.dims.values())
+    spos = [d for d in pos if not (info.cls == 'ioapi' and d == 'TSTEP')]
+    if allpos and len(spos) >= 2 and draw(st.integers(0, 4)) == 0:
+        # several dimensions in ONE call, each with a callable that returns
+        # a scalar (np.mean, np.max): every such dimension gets length 1
+        k = draw(st.integers(2, min(3, len(spos))))
+        chosen = list(draw(st.permutations(spos))[:k])
+        return dict(funcs=[[d, 'call', draw(st.sampled_from(
+            ['smean', 'smax']))] for d in chosen])
     k = draw(st.integers(1, min(2, len(pos))))
     chosen = list(draw(st.permutations(pos))[:k])
     funcs = []
